@@ -1299,7 +1299,7 @@ func (in *Interp) sliceOp(fr *frame, ins *ssa.Slice) Value {
 	case Slice:
 		if x.JSON != nil {
 			// byte-level access to JSON text: exact when the text can be rendered
-			b, ok := in.jsonRender(x.JSON)
+			b, ok := in.jsonRenderForced(x.JSON)
 			if !ok {
 				in.unsupported("reslice of JSON text that cannot be rendered")
 			}
@@ -1697,9 +1697,17 @@ func (in *Interp) appendOp(call *ssa.CallCommon, args []Value) Value {
 	switch t := args[1].(type) {
 	case Slice:
 		if t.JSON != nil {
-			in.unsupported("append of JSON text")
+			// the code handles a marshaled document as bytes: it becomes its exact text
+			b, ok := in.jsonRenderForced(t.JSON)
+			if !ok {
+				in.unsupported("append of JSON text that cannot be rendered")
+			}
+			for _, x := range b {
+				add = append(add, x)
+			}
+		} else {
+			add = t.Back[:t.Len]
 		}
-		add = t.Back[:t.Len]
 	case Str:
 		for _, b := range in.strBytes(t) {
 			add = append(add, b)
